@@ -130,6 +130,11 @@ func ExtractTimeStamp(raw []byte, timestampKey *string) uint64 {
 			ts_millis = uint64(val)
 		}
 
+		// same unit detection as ConvertTimestampToMillis does for strings
+		if IsTimeInNano(ts_millis) {
+			ts_millis /= 1000000
+		}
+
 		if !IsTimeInMilli(ts_millis) {
 			ts_millis *= 1000
 		}
